@@ -4,5 +4,6 @@ cd "$(dirname "$0")/.."
 for c in ${*:-C14 C20 C15 C12 C13 C16 C19 C09 C05 C06 C07 C01 C11 C18 C17 C02 C03 C04 C08 C10}; do
   t0=$(date +%s); out=$(bin/check $c --tier thorough 2>&1); rc=$?; t1=$(date +%s)
   echo "$c rc=$rc $((t1-t0))s $(echo "$out" | grep -c '^KNOWN-FINDING') known"
-  [ $rc -ne 0 ] && echo "$out" | grep -E "VIOLATION|MACHINERY|Error" | head -6 | cut -c1-500
+  if [ $rc -ne 0 ]; then bad=1; echo "$out" | grep -E "VIOLATION|MACHINERY|Error" | head -6 | cut -c1-500; fi
 done
+exit ${bad:-0}
